@@ -347,8 +347,168 @@ fn prop(c: &Case) -> Verdict {
         expected_total += want.len();
         reported.extend(want);
     }
-    let class = if expected_total == 0 { "complete" } else { "some-missing" };
+    let mut class = if expected_total == 0 { "complete" } else { "some-missing" }.to_string();
+    // second opinion on the oracle itself, for a sample: the same graph as a real loose-object
+    // repository, asked of `git fsck --connectivity-only`
+    if fnv(c) % 16 == 0 {
+        match git_second_opinion(&p, &g) {
+            None => {}
+            Some(Ok(())) => class.push_str("+git"),
+            Some(Err(e)) => return Verdict::fail("git-fsck-differs", e),
+        }
+    }
     Verdict::ok(biggest >= 3, class)
+}
+
+fn fnv(c: &Case) -> u64 {
+    let mut h = 0xcbf29ce484222325u64;
+    for f in c {
+        for b in f.iter().chain(&[0xffu8]) {
+            h = (h ^ *b as u64).wrapping_mul(0x100000001b3);
+        }
+    }
+    h >> 7
+}
+
+/// Real object ids for the part of the graph below the checked commits: present objects get the hash
+/// of real content, missing ones keep their abstract id. None if the graph has a cycle or a
+/// non-canonical mode (no real repository looks like that).
+struct Realiser<'a, 'g> {
+    g: &'g Graph<'a>,
+    real: HashMap<&'a [u8], Id>,
+    stack: Vec<&'a [u8]>,
+    objects: Vec<(Kind, Id, Vec<u8>)>, // kind, real id, content
+}
+impl<'a, 'g> Realiser<'a, 'g> {
+    fn real(&mut self, o: &'a [u8]) -> Option<Id> {
+        if let Some(r) = self.real.get(o) {
+            return Some(r.clone());
+        }
+        if self.stack.contains(&o) {
+            return None;
+        }
+        self.stack.push(o);
+        let made: Option<(Kind, Vec<u8>)> = if let Some(es) = self.g.tree(o) {
+            let mut d = Vec::new();
+            for (i, (m, t)) in es.iter().enumerate() {
+                if ![M_TREE, M_BLOB, M_EXE, M_LINK, M_SUB].contains(m) {
+                    return None;
+                }
+                let rid = if *m == M_SUB { t.clone() } else { self.real(t)? };
+                d.extend_from_slice(format!("{:o} f{:03}", m, i).as_bytes());
+                d.push(0);
+                d.extend_from_slice(&rid);
+            }
+            Some((Kind::Tree, d))
+        } else if let Some(t) = self.g.commit_tree(o) {
+            let rt = self.real(t)?;
+            Some((
+                Kind::Commit,
+                format!("tree {}\nauthor a <a@b> 0 +0000\ncommitter a <a@b> 0 +0000\n\n{}\n", hexs(&rt), hexs(o)).into_bytes(),
+            ))
+        } else if self.g.present(o) {
+            Some((Kind::Blob, format!("blob {}", hexs(o)).into_bytes()))
+        } else {
+            None
+        };
+        self.stack.pop();
+        let rid = match made {
+            Some((k, d)) => {
+                let id = gix_object::compute_hash(gix_hash::Kind::Sha1, k, &d).as_bytes().to_vec();
+                self.objects.push((k, id.clone(), d));
+                id
+            }
+            None => o.to_vec(),
+        };
+        self.real.insert(o, rid.clone());
+        Some(rid)
+    }
+}
+
+fn git_second_opinion(p: &Parsed, g: &Graph) -> Option<Result<(), String>> {
+    use std::io::Write;
+    use std::process::{Command, Stdio};
+    let mut r = Realiser { g, real: HashMap::new(), stack: vec![], objects: vec![] };
+    let mut heads = Vec::new();
+    for c in &p.calls {
+        heads.push(hexs(&r.real(c)?));
+    }
+    // expected: the oracle's missing set, in real ids
+    let mut want: Vec<String> = Vec::new();
+    for c in &p.calls {
+        for o in g.closure(c) {
+            if !g.present(o) {
+                want.push(hexs(r.real.get(o)?));
+            }
+        }
+    }
+    want.sort();
+    want.dedup();
+    static N: std::sync::atomic::AtomicU64 = std::sync::atomic::AtomicU64::new(0);
+    let dir = std::env::temp_dir().join(format!(
+        "gixv-c54-{}-{}",
+        std::process::id(),
+        N.fetch_add(1, std::sync::atomic::Ordering::SeqCst)
+    ));
+    let res = (|| -> Result<(), String> {
+        std::fs::create_dir_all(dir.join("objects")).map_err(|e| e.to_string())?;
+        std::fs::create_dir_all(dir.join("refs")).map_err(|e| e.to_string())?;
+        std::fs::create_dir_all(dir.join("in")).map_err(|e| e.to_string())?;
+        std::fs::write(dir.join("HEAD"), "ref: refs/heads/main\n").map_err(|e| e.to_string())?;
+        let git = |args: &[&str], input: &str| -> Result<String, String> {
+            let mut ch = Command::new("/usr/bin/git")
+                .arg("--git-dir")
+                .arg(&dir)
+                .args(args)
+                .env("GIT_CONFIG_NOSYSTEM", "1")
+                .env("GIT_CONFIG_GLOBAL", "/dev/null")
+                .stdin(Stdio::piped())
+                .stdout(Stdio::piped())
+                .stderr(Stdio::piped())
+                .spawn()
+                .map_err(|e| e.to_string())?;
+            ch.stdin.take().unwrap().write_all(input.as_bytes()).map_err(|e| e.to_string())?;
+            let out = ch.wait_with_output().map_err(|e| e.to_string())?;
+            Ok(String::from_utf8_lossy(&out.stdout).into_owned() + &String::from_utf8_lossy(&out.stderr))
+        };
+        for (kind, name) in [(Kind::Blob, "blob"), (Kind::Tree, "tree"), (Kind::Commit, "commit")] {
+            let mut paths = String::new();
+            let mut ids = Vec::new();
+            for (i, (k, id, d)) in r.objects.iter().enumerate() {
+                if *k == kind {
+                    let f = dir.join("in").join(format!("{name}{i}"));
+                    std::fs::write(&f, d).map_err(|e| e.to_string())?;
+                    paths.push_str(&format!("{}\n", f.display()));
+                    ids.push(hexs(id));
+                }
+            }
+            if ids.is_empty() {
+                continue;
+            }
+            let out = git(&["hash-object", "-w", "--literally", "-t", name, "--stdin-paths"], &paths)?;
+            let got: Vec<&str> = out.lines().collect();
+            if got != ids.iter().map(|s| s.as_str()).collect::<Vec<_>>() {
+                return Err(format!("hash-object {name}: {:?} vs {:?}", got, ids));
+            }
+        }
+        let mut args = vec!["fsck", "--connectivity-only", "--no-dangling"];
+        args.extend(heads.iter().map(|s| s.as_str()));
+        let out = git(&args, "")?;
+        let mut got: Vec<String> = out
+            .lines()
+            .filter_map(|l| l.strip_prefix("missing "))
+            .filter_map(|l| l.split(' ').nth(1))
+            .map(|s| s.to_string())
+            .collect();
+        got.sort();
+        got.dedup();
+        if got != want {
+            return Err(format!("git says missing {:?}, oracle {:?}", got, want));
+        }
+        Ok(())
+    })();
+    let _ = std::fs::remove_dir_all(&dir);
+    Some(res)
 }
 
 // ---- generator --------------------------------------------------------------------------------
@@ -381,8 +541,8 @@ const M_EXE: u32 = 0o100755;
 const M_LINK: u32 = 0o120000;
 const M_SUB: u32 = 0o160000;
 /// accepted by the decoder, beyond the five canonical ones (0o3xxxxx: truncated by `as u16`)
-const BLOBISH: &[u32] = &[M_BLOB, M_BLOB, M_EXE, M_LINK, 0o100664, 0o100600, 0o100000, 0o100100, 0o300644, 0o1100755];
-const SUBISH: &[u32] = &[M_SUB, M_SUB, 0o140000, 0o170000, 0o150644, 0o110000, 0o130000, 0o360000];
+const BLOBISH: &[u32] = &[M_BLOB, M_BLOB, M_BLOB, M_BLOB, M_EXE, M_EXE, M_LINK, M_LINK, M_BLOB, M_EXE, M_LINK, 0o100664, 0o100600, 0o100000, 0o100100, 0o300644, 0o1100755];
+const SUBISH: &[u32] = &[M_SUB, M_SUB, M_SUB, M_SUB, M_SUB, M_SUB, 0o140000, 0o170000, 0o150644, 0o110000, 0o130000, 0o360000];
 const REJECTED: &[u32] = &[0, 0o644, 0o40755, 0o20000, 0o60000, 0o200000, 0o240000, 0o77777, 0o400000];
 
 fn boundary() -> Vec<Case> {
@@ -479,7 +639,10 @@ fn boundary() -> Vec<Case> {
         vec![tag("other")],
     ];
     // every mode class once, present and missing target
-    for &m in BLOBISH.iter().chain(SUBISH).chain(REJECTED).chain(&[M_TREE]) {
+    let mut modes: Vec<u32> = BLOBISH.iter().chain(SUBISH).chain(REJECTED).chain(&[M_TREE]).copied().collect();
+    modes.sort();
+    modes.dedup();
+    for m in modes {
         out.push(case(vec![
             f_commit(&c1, &t1),
             f_tree(&t1, &[(m, b1.clone()), (m, b2.clone()), (m, t2.clone()), (m, t3.clone())]),
@@ -636,5 +799,5 @@ fn gen(rng: &mut Rng, n: usize) -> Vec<Case> {
 }
 
 fn main() {
-    main_with(Harness { gen, imp, prop, git: None, deadline: Duration::from_secs(60) });
+    main_with(Harness { gen, imp, prop, git: None, deadline: Duration::from_secs(180) });
 }
